@@ -1,6 +1,7 @@
 import TssVerif.Core.Wire
 import TssVerif.Core.OpsCrypto
 import TssVerif.Core.Zk
+import TssVerif.Core.Mta
 /-! Line-protocol ops for the proof systems. -/
 namespace TssVerif.OpsZk
 open TssVerif Wire Zk OpsCrypto
@@ -84,6 +85,18 @@ def curveOps {P : Type} (C : Curve P) (op : String) (args : List String) : Optio
       | some xu => some (verdict (bobVerify C H cur sess n nt h1 h2 c1 c2 pf xu))
       | none => none
     | _, _, _, _, _, _, _, _ => none
+  | "mta_alice_end", [sess, n, lam, phi, pf, nt, h1, h2, cA, cB, X, U] =>
+    match pBytes sess, pNat n, pNat lam, pNat phi, (pList pInt pf).bind bobOfList, pNat nt, pNat h1, pNat h2, pNat cA, pNat cB with
+    | some sess, some n, some lam, some phi, some pf, some nt, some h1, some h2, some cA, some cB =>
+      let xu : Option (Option (ECPoint × ECPoint)) :=
+        if X == "nil" then some none else
+        match pPoint X, pPoint U with
+        | some X, some U => some (some (X, U))
+        | _, _ => none
+      match xu with
+      | some xu => some ((Mta.aliceEnd C H cur sess ⟨n, lam, phi, 0, 0⟩ pf ⟨nt, h1, h2⟩ cA cB xu).render rNat)
+      | none => none
+    | _, _, _, _, _, _, _, _, _, _ => none
   | _, _ => none
 
 def run (op : String) (args : List String) : Option String :=
